@@ -174,3 +174,131 @@ def fold_evaluators(ck: Checker, R: str):
                  '; '.join(pr[:2]), construct=f'Circuit.{name} over the circuit family')
     ck.assume('the evaluators are folded (worklist loops unrolled under a step budget) over a bounded family of model circuits with <= 3 inputs and <= 7 gates; larger circuits are covered only by the structural rules')
     return M
+
+
+def fold_traversals(ck: Checker, R: str):
+    """top_sort, dfs, bfs and the cycle check folded on model states and compared with their definitions (C20)."""
+    repo = ck.repo
+    M = real_model(repo)
+    mod = M.mod
+    vm = repo.mod('cirbo.core.circuit.validation')
+    probs = {'top_sort': [], 'dfs': [], 'bfs': [], 'cycle': []}
+    n = 0
+    fam = _small_family(ck.tier)
+    for spec, outs in fam:
+        labels = [l for l, _, _ in spec]
+        inputs = [l for l, t, _ in spec if t == 'INPUT']
+        ops_of = {l: tuple(ops) for l, _, ops in spec}
+        users_of = {l: [u for u, _, ops in spec for o in ops if o == l] for l in labels}
+        inner = [x for x in spec if x[1] != 'INPUT']
+        for stored in ([spec] + ([[x for x in spec if x[1] == 'INPUT'] + inner[::-1]] if len(inner) > 1 else [])):
+            c = M.new_circuit(stored, outs)
+            desc = f'{[(l, t) + tuple(o) for l, t, o in stored if t != "INPUT"]} (storage order) outputs {list(outs)}'
+            for inverse in (False, True):
+                n += 1
+                got, err = M.call(c, 'top_sort', inverse=inverse)
+                if err:
+                    probs['top_sort'].append(f'{err} on {desc}')
+                    continue
+                order = [g.label for g in got]
+                pos = {l: i for i, l in enumerate(order)}
+                if sorted(order) != sorted(labels):
+                    probs['top_sort'].append(f'top_sort(inverse={inverse}) yields {order}: not every gate exactly once, on {desc}')
+                else:
+                    bad = [(l, o) for l in labels for o in ops_of[l] if (pos[o] > pos[l]) == inverse]
+                    if bad:
+                        probs['top_sort'].append(f'top_sort(inverse={inverse}) yields {bad[0][0]} {"before" if inverse else "after"} its operand {bad[0][1]} on {desc}')
+            starts = [None, [], [labels[-1]], [labels[-1], labels[-1]], list(inputs[:1]) + [labels[-1]]]
+            for mode in ('dfs', 'bfs'):
+                for inverse in (False, True):
+                    for start in starts:
+                        for tu in (False, True):
+                            n += 1
+                            ev = []
+                            # every second configuration uses an enter hook that also looks up the state of every other gate
+                            # (hooks receive the live state mapping; reading it must not change what is reported later)
+                            peek = (n % 2 == 0)
+                            kw = dict(inverse=inverse, on_enter_hook=(lambda g, s: ([s[x] for x in labels], ev.append(('enter', g.label)))) if peek else (lambda g, s: ev.append(('enter', g.label))), on_discover_hook=lambda g, s: ev.append(('discover', g.label)),
+                                      unvisited_hook=lambda g, s: ev.append(('unvisited', g.label)), on_traversal_end_hook=lambda s: ev.append(('end', None)), topsort_unvisited=tu)
+                            if mode == 'dfs':
+                                kw['on_exit_hook'] = lambda g, s: ev.append(('exit', g.label))
+                            got, err = M.call(c, mode, None if start is None else list(start), **kw)
+                            tag = f'{mode}(start={start}, inverse={inverse}, topsort_unvisited={tu}) on {desc}'
+                            if err:
+                                probs[mode].append(f'{err}: {tag}')
+                                continue
+                            yielded = [g.label for g in got]
+                            nxt = users_of if inverse else ops_of
+                            begin = list(start) if start is not None else (list(inputs) if inverse else list(outs))
+                            reach, st = set(), list(begin)
+                            while st:
+                                l = st.pop()
+                                if l not in reach:
+                                    reach.add(l)
+                                    st.extend(nxt[l])
+                            enters = [l for k, l in ev if k == 'enter']
+                            exits = [l for k, l in ev if k == 'exit']
+                            unv = [l for k, l in ev if k == 'unvisited']
+                            msg = None
+                            if sorted(yielded) != sorted(reach):
+                                msg = f'yields {yielded}, the gates reachable from the start set are {sorted(reach)}'
+                            elif enters != yielded:
+                                msg = f'enter hooks {enters} do not match the yielded gates {yielded}'
+                            elif sorted(unv) != sorted(set(labels) - reach):
+                                msg = f'unvisited hook received {unv}, the unreached gates are {sorted(set(labels) - reach)}'
+                            elif tu and any(unv.index(o) > unv.index(l) for l in unv for o in ops_of[l] if o in unv):
+                                msg = f'unvisited gates {unv} are not reported operands-first although topsort_unvisited was requested'
+                            elif any(k == 'discover' and (not [x for x in ev[:i] if x[0] == 'enter'] or l not in nxt[[x for x in ev[:i] if x[0] == 'enter'][-1][1]]) for i, (k, l) in enumerate(ev)):
+                                msg = 'a discover hook fires for a gate that is not a successor of the gate entered last (enter hook must precede the discovery of the children)'
+                            elif ev[-1:] != [('end', None)] or [k for k, _ in ev].count('end') != 1:
+                                msg = 'the traversal-end hook does not fire exactly once, last'
+                            elif mode == 'dfs':
+                                if sorted(exits) != sorted(reach):
+                                    msg = f'exit hooks {exits}: not one per reached gate'
+                                else:
+                                    idx = {('enter', l): i for i, (k, l) in enumerate(ev) if k == 'enter'}
+                                    idx.update({('exit', l): i for i, (k, l) in enumerate(ev) if k == 'exit'})
+                                    if any(idx[('enter', l)] > idx[('exit', l)] for l in reach):
+                                        msg = 'an exit hook fires before the enter hook of the same gate'
+                                    else:
+                                        late = [(l, s_) for l in reach for s_ in nxt[l] if idx[('exit', s_)] > idx[('exit', l)]]
+                                        if late:
+                                            msg = f'{late[0][0]} exits before its successor {late[0][1]}: exit hooks are not in post-order'
+                            if msg:
+                                probs[mode].append(f'{msg}: {tag}')
+                    if len(probs[mode]) > 3:
+                        break
+            # the cycle check accepts every acyclic circuit
+            cyc = RepoFunc(M.interp, vm, vm.func('check_circuit_has_no_cycles'))
+            M.interp.steps = 0
+            try:
+                cyc(c)
+            except InterpRaise as e:
+                probs['cycle'].append(f'raises {e.exc_name} on the acyclic circuit {desc}')
+    # cyclic states: raised exactly when the cycle is reachable from the outputs
+    cyc = RepoFunc(M.interp, vm, vm.func('check_circuit_has_no_cycles'))
+    for spec, outs, cyclic in (
+        ([('a', 'INPUT', ()), ('g', 'AND', ('a', 'h')), ('h', 'OR', ('g', 'a'))], ('h',), True),
+        ([('a', 'INPUT', ()), ('g', 'AND', ('a', 'h')), ('h', 'OR', ('g', 'a')), ('k', 'NOT', ('a',))], ('k',), False),
+        ([('a', 'INPUT', ()), ('g', 'NOT', ('g',))], ('g',), True),
+        ([('a', 'INPUT', ()), ('g', 'XOR', ('a', 'a')), ('h', 'AND', ('g', 'g')), ('o', 'OR', ('h', 'g'))], ('o', 'o'), False),
+        ([('a', 'INPUT', ()), ('p', 'AND', ('a', 'r')), ('q', 'OR', ('p', 'a')), ('r', 'NOT', ('q',)), ('o', 'IFF', ('q',))], ('o',), True),
+    ):
+        n += 1
+        c = M.new_circuit(spec, outs)
+        M.interp.steps = 0
+        try:
+            cyc(c)
+            raised = None
+        except InterpRaise as e:
+            raised = e.exc_name
+        if bool(raised) != cyclic or (raised and raised != 'CircuitValidationError'):
+            probs['cycle'].append(f'{"raises " + raised if raised else "accepts"} {[(l, t) + tuple(o) for l, t, o in spec if t != "INPUT"]} outputs {list(outs)}, where a cycle is {"" if cyclic else "not "}reachable from the outputs')
+    for name, (m_, fname) in {'top_sort': (mod, 'Circuit.top_sort'), 'dfs': (mod, 'Circuit.dfs'), 'bfs': (mod, 'Circuit.bfs'), 'cycle': (vm, 'check_circuit_has_no_cycles')}.items():
+        ck.check(not probs[name], R, m_, m_.func(fname), {
+            'top_sort': 'top_sort in both directions yields every gate exactly once, every gate after (before) all of its operands',
+            'dfs': 'dfs from every start set in both directions yields exactly the reachable gates once each; enter before exit, exits in post-order; the unvisited hook gets exactly the unreached gates (operands-first on request); the end hook fires once, last',
+            'bfs': 'bfs from every start set in both directions yields exactly the reachable gates once each; the unvisited hook gets exactly the unreached gates (operands-first on request); the end hook fires once, last',
+            'cycle': 'check_circuit_has_no_cycles accepts every acyclic model circuit and raises CircuitValidationError exactly when a cycle is reachable from the outputs',
+        }[name] + f' ({n} traversals folded over the model-circuit family)', '; '.join(probs[name][:2]), construct=f'{fname} over the circuit family')
+    ck.assume('the traversals are folded (worklist loops unrolled under a step budget, generators run to completion) over a bounded family of model circuits; larger circuits are covered only by the structural rules')
